@@ -5,9 +5,17 @@
 //       x86::Compiler for the host (x86-64), finalized, added to a JitRuntime and executed on its inputs in a forked
 //       child (miscompiled code may crash or hang).  One observation record per program:
 //       {id, meta, prog, inputs, obs:[{ret,out,log}], status}.  Nothing is compared here; RegAllocProgObs.tla does.
-//   regalloc record <arch:x64|x86|a64> <programs.ndjson> <rec.ndjson> [extra-source ...]
-//       Leg 1.  Builds every program (and the extra built-in sources) for <arch>, walks the node list before and after
-//       run_passes() and writes one record per function for RegAlloc.tla (see rec_function()).
+//   regalloc record <arch:x64|x86|a64> <programs.ndjson> <rec.ndjson>
+//       Leg 1.  Builds every program for <arch> (each in a forked child: an allocator crash becomes a record), walks the
+//       node list before and after run_passes() and writes one raw record per function: nodes (identity = pointer ->
+//       index), operands, InstAPI::query_rw_info per operand, jump annotations, invoke/func ABI values, virtual registers.
+//       checks/c05_tv.py turns it into the op list of spec/machine/RegAlloc.tla.  Nothing is judged here.
+//   regalloc recordgen <arch:x64|a64> <rec.ndjson> <seed> <count>
+//       same, for the built-in seeded generator (mixed register classes/sizes, partial writes, same-register idioms,
+//       a64 ld1/ld2/st1/tbl register lists).
+//   regalloc recordtests <arch> <rec.ndjson>
+//       same, for the TestCase::compile functions of the repository's asmjit_test_compiler_x86.cpp / _a64.cpp.
+//   regalloc asm <programs.ndjson> <id> | asmgen <arch> <seed> <i>      developer aids (annotated listing)
 //
 // The expansion of a language instruction into target instructions (build_x86 / build_a64) is part of the trusted base:
 // it is a fixed, syntax-directed macro expansion (listed in RegAllocInterp.tla's header).
